@@ -202,6 +202,11 @@ class SharedMemoryFileBufferedCollection(FileBufferedCollection):
                 if not type(self)._buffer[self._filename]["modified"]:
                     type(self)._buffer[self._filename]["modified"] = True
                     type(self)._CURRENT_BUFFER_SIZE += 1
+                # Operations that save without loading first (clear, reset)
+                # may have rebound this instance's data; the shared store
+                # must follow, or the change is invisible to every instance
+                # (including this one) on the next load from the buffer.
+                type(self)._buffer[self._filename]["contents"] = self._data
             else:
                 self._initialize_data_in_buffer(modified=True)
                 type(self)._CURRENT_BUFFER_SIZE += 1
